@@ -302,7 +302,13 @@ func runHandlerOrder(run *vk.Run, transports []string, emitters, burst int) {
 		inv, n := r.inv, r.n
 		r.mu.Unlock()
 		run.Count("handler_entries", int64(n))
+		run.Count("handler_entry_inversions", int64(inv))
+		if n < emitters*burst {
+			run.Logf("handler-order %s %v emitters=%d: only %d of %d handler entries after 30 s", dir, transports, emitters, n, emitters*burst)
+			run.Count("handler_rig_incomplete", 1)
+		}
 		if inv > 0 {
+			run.Logf("handler-order inversions: %d of %d (%s, %s, %d emitters)", inv, n, dir, strings.Join(transports, "+"), emitters)
 			run.Violation(vk.Violation{Sub: "handler-order", Fields: map[string]any{"layer": "handler-entry", "rig": "sio-sio"},
 				What:    fmt.Sprintf("%d of %d handler entries (%s, %s, %d emitters) ran before an earlier event of the same emitter", inv, n, dir, strings.Join(transports, "+"), emitters),
 				Witness: map[string]any{"dir": dir, "transports": transports, "emitters": emitters, "burst": burst, "inversions": inv}})
@@ -330,14 +336,23 @@ func main() {
 		for _, tr := range []string{"polling", "websocket", "upgraded"} {
 			for _, e := range emitters {
 				for _, b := range bursts {
+					t0 := time.Now()
 					runS2C(run, wcase{"s2c", tr, e, b})
+					t1 := time.Now()
 					runC2S(run, wcase{"c2s", tr, e, b})
+					if d := time.Since(t0); d > 2*time.Second {
+						run.Logf("slow wire case %s e=%d: s2c %v c2s %v", tr, e, t1.Sub(t0).Round(time.Millisecond), time.Since(t1).Round(time.Millisecond))
+					}
 				}
 			}
 		}
 		for _, tr := range [][]string{{"polling"}, {"websocket"}, {"polling", "websocket"}} {
 			for _, e := range []int{1, 4, 16} {
+				t0 := time.Now()
 				runHandlerOrder(run, tr, e, bursts[0])
+				if d := time.Since(t0); d > 2*time.Second {
+					run.Logf("slow handler-order case %v e=%d: %v", tr, e, d.Round(time.Millisecond))
+				}
 			}
 		}
 		if run.Violations() > 30 {
